@@ -4,6 +4,7 @@ import (
 	"archive/zip"
 	"bytes"
 	"fmt"
+	"hash/crc32"
 	"os"
 	"path/filepath"
 	"testing"
@@ -374,11 +375,23 @@ type CaseC05Static struct {
 	}
 	Raw     []byte
 	Inherit bool
+	// Lie, when non-nil, makes the header of member LieMember declare these sizes / checksum instead of the true ones
+	// (written with zip.Writer.CreateRaw, method Store).
+	Lie       *ZipLie `json:",omitempty"`
+	LieMember int     `json:",omitempty"`
+}
+
+type ZipLie struct {
+	UncompressedSize uint64
+	CompressedSize   uint64
+	KeepCompressed   bool // CompressedSize stays truthful
+	CRC32            uint32
+	KeepCRC          bool
 }
 
 var c05StaticRec = vt.NewRecorder("C05", "TestC05Static",
 	"zip archives whose members are arbitrary byte strings: a well-formed rendered feed in which 1-3 members are replaced by generated bytes (random, hostile CSV snippets, truncated or byte-mutated CSV), member names from the ten supported names, "+
-		"and raw/mutated archives. Oracle: no panic, no hang; result walked (Root() after a bounded walk, all references dereferenced). Non-trivial = ParseStatic returned a result and >=1 accessor ran")
+		"raw/mutated archives, and members whose zip header declares false sizes (0 ... 2^64-1) or checksum. Oracle: no panic, no hang; result walked (Root() after a bounded walk, all references dereferenced). Non-trivial = ParseStatic returned a result and >=1 accessor ran")
 
 var c05TablesRec = vt.NewRecorder("C05", "TestC05StaticTables",
 	"syntactically valid CSV with semantically wrong content: well-formed feeds after 1-8 hostile table edits incl. structural ones (dropped/duplicated columns, dropped files, emptied files), rendered under generated presentations. Oracle as above")
@@ -393,7 +406,20 @@ func c05BuildArchive(c CaseC05Static) []byte {
 	}
 	var b bytes.Buffer
 	w := zip.NewWriter(&b)
-	for _, m := range c.Members {
+	for i, m := range c.Members {
+		if c.Lie != nil && i == c.LieMember%len(c.Members) {
+			fh := &zip.FileHeader{Name: m.Name, Method: zip.Store, UncompressedSize64: c.Lie.UncompressedSize, CompressedSize64: c.Lie.CompressedSize, CRC32: c.Lie.CRC32}
+			if c.Lie.KeepCompressed {
+				fh.CompressedSize64 = uint64(len(m.Data))
+			}
+			if c.Lie.KeepCRC {
+				fh.CRC32 = crc32.ChecksumIEEE(m.Data)
+			}
+			if fw, err := w.CreateRaw(fh); err == nil {
+				fw.Write(m.Data)
+			}
+			continue
+		}
 		// Store, not Deflate: the archive layer is not what these targets explore, and it triples the throughput
 		fw, err := w.CreateHeader(&zip.FileHeader{Name: m.Name, Method: zip.Store})
 		if err != nil {
@@ -449,8 +475,13 @@ func TestC05Static(t *testing.T) {
 				Data []byte
 			}{ts[i].Name, sgen.RenderCSV(&ts[i], sgen.FilePres{})})
 		}
-		mode := rapid.IntRange(0, 5).Draw(t, "mode")
+		mode := rapid.IntRange(0, 6).Draw(t, "mode")
 		switch {
+		case mode == 6: // a member whose zip header lies about its sizes or checksum
+			sizes := []uint64{0, 1, 1 << 20, 1<<31 - 1, 1 << 31, 1<<32 - 1, 1 << 32, 1 << 40, 1 << 62, 1 << 63, 1<<64 - 1}
+			c.Lie = &ZipLie{UncompressedSize: rapid.SampledFrom(sizes).Draw(t, "lieUncompressed"), CompressedSize: rapid.SampledFrom(sizes).Draw(t, "lieCompressed"),
+				KeepCompressed: rapid.IntRange(0, 3).Draw(t, "keepCompressed") != 0, CRC32: rapid.Uint32().Draw(t, "lieCRC"), KeepCRC: rapid.Bool().Draw(t, "keepCRC")}
+			c.LieMember = rapid.IntRange(0, len(c.Members)-1).Draw(t, "lieMember")
 		case mode == 0: // raw archive bytes
 			raw := c05BuildArchive(c)
 			c.Members = nil
@@ -475,7 +506,7 @@ func TestC05Static(t *testing.T) {
 			}
 		}
 		ok, acc, err := c05RunStatic(c05BuildArchive(c), c.Inherit)
-		c05StaticRec.Eval(fmt.Sprintf("mode=%d", min(mode, 1)), fmt.Sprintf("accepted=%v", ok))
+		c05StaticRec.Eval(map[int]string{0: "mode=raw-archive", 6: "mode=lying-zip-header"}[mode]+map[bool]string{true: "", false: "mode=member-replaced"}[mode == 0 || mode == 6], fmt.Sprintf("accepted=%v", ok))
 		if ok && acc > 0 {
 			c05StaticRec.NontrivialCase(vt.Fingerprint(c), func() any {
 				var names []string
